@@ -1,7 +1,7 @@
 #!/bin/bash
 # confirm_seed.sh CXX [name]: verify demo fails with the change and passes without, then store under /verif/seeded/
 set -u
-P=$1; WT=/tmp/seed-$P; NAME=${2:-$P}
+P=$1; NAME=${2:-$P}; WT=${WT:-/tmp/seed-$P}
 cd $WT/python || exit 2
 build() { /venv/bin/python setup.py build_ext --inplace >/dev/null 2>&1; }
 demo() { PYTHONPATH=$WT/python timeout 900 /venv/bin/python $WT/SEED/demo.py > /tmp/seed-demo-$P.out 2>&1; echo $?; }
